@@ -137,7 +137,7 @@ Qed.
 Definition cex_cfg : scfg :=
   {| domain := bs "localhost"; has_mod := false; op_auth := false; op_fbp := false; op_fev := false; op_spp := false;
      proto := []; max_clients := 10; max_subs := 10; max_payload_cfg := 1000; max_inflight := 10; max_message := 1000;
-     keepalive := 60; min_keepalive := 10; max_conns := 10; pool_budget := 100000 |}.
+     keepalive := 60; min_keepalive := 10; max_conns := 10; pool_budget := 100000; max_channels := 100 |}.
 Definition cex_ops : list op :=
   [Open 1;
    Frame 1 (build "CONNECT" [(bs "version", VNum 1); (bs "heartbeat_interval", VNum 0)]) None [] [];
